@@ -8,6 +8,24 @@ HERE = os.path.dirname(os.path.dirname(os.path.abspath(__file__)))
 
 # property -> (technique, level text, level note, design ref)
 CLAIMED = {
+    'C01': ('model-based testing: small-scope exhaustive BFS of event sequences with state de-duplication + Hypothesis '
+            'random walks, reference RFC 4271 FSM model run in lock-step on a virtual reactor',
+            'Every reachable (state,event) cell of the C01 alphabet is exercised on the real FSM/protocol/factory code over '
+            'a deterministic virtual Twisted reactor; each step is compared with a reference model written from RFC 4271 '
+            'section 8 (state, messages with code/subcode, close, new attempt) and a history monitor checks that '
+            'Established only follows OPEN/OPEN/KEEPALIVE/KEEPALIVE on the current connection. Bounded depth.',
+            'Trusted base: vlib/simnet (Twisted semantics), vlib/fsm_model.py (the RFC profile of DESIGN.md 4.3), refcodec.',
+            '5/C01'),
+    'C02': ('property-based testing (Hypothesis) of adversarial event prefixes followed by a scripted cooperative peer; '
+            'bounded-time re-establishment oracle + byte-identical OPEN differential against a fresh boot',
+            'Generated hostile histories x timer configurations; after the hand-over the session must reach Established '
+            'within idle_hold + connect cycle on the virtual clock, stay up three hold times, and offer the same OPEN as a '
+            'fresh boot.', 'Trusted base: simnet, cooperative peer script (vlib/session.py).', '5/C02'),
+    'C03': ('property-based testing (Hypothesis) over hold-time configurations and peer arrival schedules incl. exact '
+            'ties, oracle computed from the schedule alone on a virtual clock; plus a configuration grid',
+            'Keepalive spacing <= H/3, no expiry while arrivals are younger than H, Hold Timer Expired exactly at '
+            'last arrival + H, both orders of an exact tie, H=0, large hold time in OpenSent.',
+            'Trusted base: simnet clock (timers fire exactly when due), tolerance 1e-6 s.', '5/C03'),
     'C04': ('property-based testing (Hypothesis) + exhaustive 1-/2-cut and header-field grids; differential vs a '
             'reference deframer and metamorphic equality across segmentations',
             'Generated streams x segmentations on the real BGP protocol object over a virtual reactor: differential '
@@ -16,6 +34,36 @@ CLAIMED = {
             'stream length, full grids over the length and type octets.',
             'Trusted base: vlib/simnet (Twisted 20.3 transport semantics: no delivery after loseConnection), '
             'vlib/refcodec deframer, sys.monitoring line counter as work measure.', '5/C04'),
+    'C06': ('property-based testing (Hypothesis): construct->parse round trip with an independently rendered expectation, '
+            'plus an exhaustive prefix-length grid',
+            'Round trip of generated UPDATE dicts (IPv4 prefixes of every length, every standard attribute at its '
+            'boundaries, 2-/4-octet AS) through Update.construct/Update.parse; expected community text rendered by the '
+            'harness from numeric values.', 'Trusted base: refcodec framing + community renderer.', '5/C06'),
+    'C07': ('property-based testing (Hypothesis) per address family and direction, round trip through a full UPDATE, '
+            'culprit-route isolation, exhaustive prefix-length x label grid',
+            'Every MP_REACH/MP_UNREACH value of the families that are both encoded and decoded must decode back to '
+            'itself (addresses compared by value).', 'Trusted base: semantic comparison of addresses via ipaddress.', '5/C07'),
+    'C11': ('exhaustive short inputs + mutation fuzzing of harvested vectors + Hypothesis random/TLV-soup inputs, every '
+            'call under a deterministic work budget (sys.monitoring line events)',
+            'Every decoder entry point (UPDATE, attributes, NLRI families, all registered BGP-LS and Prefix-SID TLVs, OPEN, '
+            'capabilities, NOTIFICATION, ROUTE-REFRESH, KEEPALIVE) returns or raises within A+B*len line events; '
+            'Update.parse with in-range length fields returns the documented dict and never raises.',
+            'Trusted base: line-event counter as the measure of work.', '5/C11'),
+    'C12': ('model-free invariant checking over event sequences: BFS with state de-duplication + Hypothesis random walks '
+            'over the unrestricted alphabet incl. all same-instant timer orders',
+            'After every event at most one connector is connecting/connected, no connectTCP while another is open '
+            '(snapshot at the call), no write to an untracked connection, nothing leaked at quiescence; connect-retry '
+            'below/equal/above the TCP timeout.', 'Trusted base: simnet connector model.', '5/C12'),
+    'C13': ('property-based testing (Hypothesis): generated prefix -> REST manual-stop -> generated continuation -> '
+            'REST manual-start -> cooperative peer, with silence and restart oracles',
+            'Cease iff Established, close, then no byte written and no connect attempt whatever the environment does '
+            'for 2400 s; manual start connects at once, recovery is automatic again, start while Established is a no-op.',
+            'Trusted base: simnet, Flask test client for the REST calls.', '5/C13'),
+    'C14': ('property-based testing (Hypothesis) + exhaustive enumeration (all 65536 NOTIFICATION code/subcode pairs, all '
+            'capability-switch subsets); round trip and differential against refcodec',
+            'OPEN/NOTIFICATION/KEEPALIVE/ROUTE-REFRESH: construct->parse round trip, byte equality with the independent '
+            'encoder, and decoding of refcodec-encoded OPENs over capability subsets, orders and packagings.',
+            'Trusted base: refcodec OPEN encoder/decoder.', '5/C14'),
 }
 
 NOT_YET = {}
